@@ -38,6 +38,10 @@ type c30Op struct {
 	Conn    int    `json:"conn,omitempty"`    // close: which open connection (mod open)
 	Backend int    `json:"backend,omitempty"` // latency: list entry (mod len)
 	Micros  int    `json:"micros,omitempty"`  // latency: measured status latency
+	// attempt: the client spells the host differently (1 upper case, 2 first letter
+	// upper case); only for routes without '$n' backends. The route, and with it the
+	// rotation / counting state, is the same.
+	Spell int `json:"spell,omitempty"`
 }
 
 type c30Case struct {
@@ -420,7 +424,21 @@ func c30Run(c c30Case) (res verifkit.Result) {
 					return nil
 				}
 			}
-			a, rh := c30RunAttempt(c, routes, sm, m, func(cn string) bool { return downSet[cn] }, order)
+			cc := c
+			if op.Spell != 0 && !strings.Contains(strings.Join(c.Backends, ","), "$") {
+				switch op.Spell {
+				case 1:
+					cc.Host = strings.ToUpper(c.Host)
+				default:
+					if c.Host != "" {
+						cc.Host = strings.ToUpper(c.Host[:1]) + c.Host[1:]
+					}
+				}
+				if cc.Host != c.Host {
+					lab("host-spelled-differently")
+				}
+			}
+			a, rh := c30RunAttempt(cc, routes, sm, m, func(cn string) bool { return downSet[cn] }, order)
 			if a.v != nil {
 				return verifkit.Result{V: a.v}
 			}
@@ -578,7 +596,8 @@ func c30Gen(t *rapid.T) c30Case {
 			default:
 				down = rapid.SliceOfN(rapid.Bool(), nd, nd).Draw(t, "down")
 			}
-			c.Ops = append(c.Ops, c30Op{Kind: "attempt", Down: down, Keep: rapid.Bool().Draw(t, "keep")})
+			c.Ops = append(c.Ops, c30Op{Kind: "attempt", Down: down, Keep: rapid.Bool().Draw(t, "keep"),
+				Spell: rapid.SampledFrom([]int{0, 0, 0, 1, 2}).Draw(t, "spell")})
 		case k <= 7:
 			c.Ops = append(c.Ops, c30Op{Kind: "close", Conn: rapid.IntRange(0, 5).Draw(t, "conn")})
 		default:
@@ -809,7 +828,7 @@ func c30GenRace(t *rapid.T) c30RaceCase {
 	return c
 }
 
-const c30Rule = "one route, 1-6 backends (duplicates: same address, default port spelled or not, other letter case, in 1/3 of the cases; '$1' templates filled from the host incl. '[x' / 'x]'), strategy sequential/''/random/round-robin/least-connections/lowest-latency; history of connection attempts with scripted dial outcome per backend, kept-open connections, closes and recorded latencies through findRoute+tryBackends+TrackConnection; oracle: no backend twice per attempt, order per strategy model (sequential exact; round-robin between consecutive retry-free connections; least-connections/lowest-latency as validity of the pick), failure only after all failed, ActiveConnections()==open after every op and 0 at the end. Non-trivial = list with a duplicate, or a failed dial before a success, or all of >=2 backends failed"
+const c30Rule = "one route, 1-6 backends (duplicates: same address, default port spelled or not, other letter case, in 1/3 of the cases; '$1' templates filled from the host incl. '[x' / 'x]'), strategy sequential/''/random/round-robin/least-connections/lowest-latency; history of connection attempts (the client's host in the configured spelling, upper case or capitalised: same route, same rotation and counting state) with scripted dial outcome per backend, kept-open connections, closes and recorded latencies through findRoute+tryBackends+TrackConnection; oracle: no backend twice per attempt, order per strategy model (sequential exact; round-robin between consecutive retry-free connections; least-connections/lowest-latency as validity of the pick), failure only after all failed, ActiveConnections()==open after every op and 0 at the end. Non-trivial = list with a duplicate, or a failed dial before a success, or all of >=2 backends failed"
 
 func TestVerif_C30(t *testing.T) {
 	verifkit.Check(t, "C30", "attempts", c30Rule, c30Gen, c30Run)
